@@ -342,7 +342,7 @@ def run(run):
                   'texts': f'{len(es)} expression texts (valid, invalid, failing at run time, with results of every JSON type) x {len(js)} input texts (valid incl. non-ASCII / escapes / 64-bit extremes / 1e100, invalid, empty, trailing characters); plus input texts and expressions containing one or two ARBITRARY Unicode scalar values (string value, member name, raw string, literal, whole text)',
                   'functions': 'main, show_result, read_file, get_json and their closures from the MIR of jmespath-cli, calling the library MIR'}
     run.outside = ['clap itself (argument syntax, --help/--version, usage errors for missing / conflicting arguments): represented by its declared contract', 'failing writes to stdout / stderr (closed pipes): println! panics in that case -- not modelled, stated',
-                   'serde_json::to_writer_pretty is a model (two-space indentation over the tree the crate\'s Serialize impl emits), differentially tested against the real binary on every replay', 'inputs that are not valid UTF-8']
+                   'serde_json::to_writer_pretty is a model (two-space indentation over the tree the crate\'s Serialize impl emits), differentially tested against the real binary on every replay', 'inputs that are not valid UTF-8', 'code points that are unassigned in the Unicode tables of the host Python (their Debug escaping is decided by the toolchain\'s newer tables)']
     run.assumes = ['exactly one of EXPRESSION / --expr-file is present after get_matches (both are `required` and `conflicts_with` each other)', 'writes to the standard streams succeed', 'process::exit(n) ends the process with status n; returning from main ends it with 0']
     run_jobs(run, jobs, cli_job, 'mirsym: jp main() from MIR under a symbolic environment vs the property over the library\'s answers')
     run.cands = [c for c in run.cands if c['key'].startswith('c18:')]
